@@ -493,6 +493,10 @@ func (r *sessRunner) step(ev *sessEvent, created map[string]bool) {
 				}
 			}
 		}
+		if ev.Kind == "contribute" && err == nil && ev.Fault != "" && ev.Fault != "longvvec" && ev.Fault != "shortvvec" {
+			// (a consistent polynomial of another degree is judged by the model: the length rule)
+			fail("a contribution that does not verify (%s) was accepted", ev.Fault)
+		}
 		if ev.Kind == "commit" && err == nil {
 			if preS == nil {
 				fail("commit succeeded without a generation")
